@@ -7,6 +7,9 @@ HERE = os.path.dirname(os.path.abspath(__file__))
 sys.path.insert(0, os.path.join(HERE, "..", "lib"))
 import verif
 
+# delta + slack beyond size_t: the shipped wait()/try_acquire() compared value_ with the WRAPPED sum (audit finding, repaired in
+# /repo ca9b7a2, fixes/C11/02).  The `overflow` family and corpus/C11/overflow_cases.txt keep that regime under test; such
+# cases are judged by py_sem_check (big integers) and the rest-state analysis, the model's unary naturals cannot hold them.
 ck = verif.Check("C11")
 rng = ck.rng
 pr = ck.prove()
@@ -31,6 +34,7 @@ def norm_call(tok):
     if k in ("W1", "T1"): return k[0], int(p[1]), 0
     if k in ("W", "T"): return k, int(p[1]), int(p[2])
     if k == "S": return "S", 1, 0
+    if k == "V": return "V", 0, 0
     return "SN", int(p[1]), 0
 
 def api_forms(rng, progs):
@@ -43,6 +47,8 @@ def api_forms(rng, progs):
                 if c[1] == 1 and rng.chance(1, 2): q.append((c[0] + "0",)); continue
                 if rng.chance(1, 3): q.append((c[0] + "1", c[1])); continue
             q.append(c)
+            if rng.chance(1, 10): q.append(("V",))      # racing observer value() after this call
+        if rng.chance(1, 10): q.insert(0, ("V",))
         out.append(q)
     return out
 
@@ -121,6 +127,32 @@ def gen_sem(rng):
     ctor = rng.choice([0, 0, 1, 2, 3] if initial == 0 else [0, 0, 2, 3])
     return sem_line(initial, strategy, spur, seed, api_forms(rng, progs), ctor=ctor), mode
 
+def gen_overflow(rng):
+    """delta + slack does not fit size_t (or nearly): by the property a wait blocks / try_acquire fails unless the value
+    really covers delta + slack.  Judged by py_sem_check and the rest-state analysis (the model's naturals are unary)."""
+    M = 1 << 64
+    bigs = [M - 1, M - 2, M - 3, 1 << 63, (1 << 63) + 1]
+    def req():
+        r = rng.below(4)
+        if r == 0: return rng.choice(bigs), rng.range(1, 3)          # delta huge, sum wraps
+        if r == 1: return rng.range(0, 3), rng.choice(bigs)          # slack huge, sum wraps (or just fits)
+        if r == 2: return 1 << 63, rng.choice([1 << 63, (1 << 63) + 1])   # sum wraps to 0 / 1
+        return rng.choice(bigs), 0                                       # no wrap, but far above any value
+    nthr = rng.range(1, 3)
+    progs = []
+    for t in range(nthr):
+        p = []
+        for _ in range(rng.range(1, 2)):
+            r = rng.below(10)
+            if r < 3: p.append(("S",))
+            elif r < 4: p.append(("SN", rng.range(0, 3)))
+            else:
+                d, sl = req(); p.append(("T", d, sl))
+        if rng.chance(1, 2):
+            d, sl = req(); p.append(("W", d, sl))                       # blocks for good: last call of the thread
+        progs.append(p)
+    return sem_line(rng.range(0, 5), rng.below(2), 0, rng.next() % 1000000007, progs), "overflow"
+
 def gen_bar(rng, kind):
     n = rng.range(1, 4)
     g = 3 if rng.chance(3, 4) else rng.range(1, 4)
@@ -135,6 +167,9 @@ def gen_bar(rng, kind):
     sil = "".join("1" if rng.chance(1, 3) else "0" for _ in range(max(gens)))     # generations crossed without lambda
     opts = (" sil=" + sil) if "1" in sil else ""
     if kind == "bs" and rng.chance(1, 2): opts += " stepq=1"
+    if kind == "bs" and n >= 2 and rng.chance(1, 30):
+        # a participant leaves early: the others busy-wait for good; bounded by an explicit step bound
+        gens[rng.below(n)] = max(0, g - 1 - rng.below(2)); mode = "bs-unequal"; opts += " maxsteps=3000"
     return "%s %d %d %d %d%s | %s" % (kind, yld, strategy, spur, seed, opts, " ".join(map(str, gens))), mode
 
 # ---------------------------------------------------------------- interpretation of a case
@@ -194,8 +229,43 @@ def with_choices(case, choices):
     if choices: head.insert(5, "choices=" + choices)
     return " ".join(head) + " " + " ".join("| " + " ".join(b) for b in blocks)
 
+def hopt(c, key):
+    for tok in parse_case(c)[0]:
+        if tok.startswith(key + "="): return tok.split("=", 1)[1]
+    return None
+
+M64 = 1 << 64
+def py_sem_check(initial, blocks, trace):
+    """sem_check (coq/C11/Sem.v) on unbounded integers: critical sections linearised by their unlock events; every
+    returned value, wait threshold and try_acquire outcome must agree with the token count recomputed from the calls"""
+    v = initial
+    progs = [[norm_call(x) for x in b if x != "V"] for b in blocks]
+    pend = {}
+    for tok in trace.split():
+        p = tok.split(":")
+        t = int(p[0])
+        if t == 0: continue
+        if p[1] == "U":
+            if not progs[t - 1]: return False, "unlock without a call (thread %d)" % t
+            k, d, sl = progs[t - 1].pop(0)
+            if k in ("S", "SN"): v += d; pend[t] = v
+            elif k == "W":
+                if d + sl > v: return False, "wait(%d,%d) of thread %d returned although the value is %d" % (d, sl, t, v)
+                v -= d; pend[t] = v
+            else:
+                if d + sl <= v: v -= d; pend[t] = 1
+                else: pend[t] = 0
+        elif p[1] == "US" and p[2] == "ret":
+            got = int(p[4]) % M64
+            if t not in pend: return False, "return without a completed call (thread %d)" % t
+            if got != pend[t] % M64:
+                return False, "call %s of thread %d returned %d, the token count says %d" % (p[3], t, got, pend[t])
+            del pend[t]
+    return True, ""
+
 # ---------------------------------------------------------------- cases
 corpus = [l.strip() for l in open(os.path.join(verif.VERIF, "corpus", "C11", "cases.txt")) if l.strip() and not l.startswith("#")]
+corpus += [l.strip() for l in open(os.path.join(verif.VERIF, "corpus", "C11", "overflow_cases.txt")) if l.strip() and not l.startswith("#")]
 cases = list(corpus); modes = ["corpus"] * len(corpus)
 if ck.replay:
     cases = [json.load(open(ck.replay))["case"]]; modes = ["replay"]
@@ -206,6 +276,8 @@ else:
     for k in range(NB):
         c, m = gen_bar(rng, "bm"); cases.append(c); modes.append(m)
         c, m = gen_bar(rng, "bs"); cases.append(c); modes.append(m)
+    for k in range(NS // 20):
+        c, m = gen_overflow(rng); cases.append(c); modes.append(m)
 casefile = os.path.join(ck.scratch, "cases.txt")
 open(casefile, "w").write("\n".join(cases) + "\n")
 
@@ -228,12 +300,17 @@ if exe is None:
 elif drv is None:
     ck.violation("extracted model/driver does not build", {"correspondence": "ocaml/C11_driver.ml", "log": dlog[-2000:]}, no_input=True)
 else:
-    env = dict(os.environ, ASAN_OPTIONS="detect_leaks=0")
-    rc1, out1 = verif.sh([exe, casefile], timeout=900, env=env)
-    impl = [l for l in out1.splitlines() if l.split(" ", 1)[0] in ("OK", "DEADLOCK", "BADCASE", "CRASH", "SKIPPED")]
+    # leaks: a DEADLOCK exit leaves by _exit; keep the framework's other sanitizer options
+    asan = os.environ.get("ASAN_OPTIONS", "")
+    env = dict(os.environ, ASAN_OPTIONS=(asan + ":" if asan else "") + "detect_leaks=0")
+    # time budget: a normal quick run takes ~25 s; the harness' own watchdog kills a case after 10 s without progress
+    # (HANG line) and gives up after 3 hangs / 3 step-bound exits, so a hanging component costs about a minute
+    T_HARNESS = 900 if ck.thorough() else 240
+    rc1, out1 = verif.sh([exe, casefile], timeout=T_HARNESS, env=env)
+    impl = [l for l in out1.splitlines() if l.split(" ", 1)[0] in ("OK", "DEADLOCK", "BADCASE", "CRASH", "SKIPPED", "HANG")]
     outfile = os.path.join(ck.scratch, "impl.txt")
     open(outfile, "w").write("\n".join(impl) + "\n")
-    rc2, out2 = verif.sh([drv, casefile, outfile], timeout=900)
+    rc2, out2 = verif.sh([drv, casefile, outfile], timeout=T_HARNESS)
     model = out2.splitlines()
     if rc1 != 0 or len(impl) < len(cases) or any(l.startswith("CRASH") for l in impl):
         found = True
@@ -256,7 +333,24 @@ else:
                 distinct.add(hash(kind + trace))
             if a.startswith("SKIPPED"):
                 skipped += 1; continue
-            if a.startswith("BADCASE") or b.startswith("SKIP"):
+            if a.startswith("HANG"):
+                found = True
+                ck.violation("real code hangs under the scheduler (%s): a thread blocked outside the shim or an endless loop without scheduling point" % a[:60],
+                             {"case": c, "impl": a})
+                if ck.violations >= 3: break
+                continue
+            big = b.startswith("SKIP bignum")
+            if big:
+                # arguments beyond the model's unary naturals (overflow family): the verdict comes from the big-integer checker
+                okb, whyb = py_sem_check(int(head[1]), blocks, trace)
+                if not okb:
+                    found = True
+                    ck.violation("Semaphore with huge delta/slack violates the property: %s" % whyb, {"case": c, "impl": a[:1500]}, key="sem-delta-slack-overflow")
+                    if ck.violations >= 3: break
+                    continue
+                if a.startswith("OK"):
+                    traces_ok += 1; continue
+            if a.startswith("BADCASE") or (b.startswith("SKIP") and not big):
                 ck.violation("case not understood by harness/driver: %s / %s" % (a[:80], b[:80]), {"case": c, "correspondence": "case format"}, no_input=True)
                 break
             if a.startswith("OK"):
@@ -287,6 +381,25 @@ else:
             rest_states += 1
             why, val, thr, choices = state_of(a)
             replay_case = with_choices(c, choices)
+            if not why.startswith("no_thread_enabled") and kind == "bs" and hopt(c, "maxsteps") and len(set(int(x) for x in blocks[0])) > 1:
+                # spin barrier whose participants cross different numbers of generations: the counterpart of a rest state is
+                # "only busy-loop iterations until the step bound"; legitimate iff every thread still inside waits in a
+                # generation that some participant never enters, and the (long) trace is a trace of the model
+                gens = [int(x) for x in blocks[0]]
+                bad = [t for t, (pos, inside) in thr.items() if inside and pos < min(gens)]
+                if bad:
+                    found = True
+                    ck.violation("spin barrier: thread(s) %s still inside a generation that all participants enter when the step bound is hit" % bad,
+                                 {"case": c, "impl": a[:600]})
+                elif b.startswith("REJECT") or fb.get("check") != "1":
+                    if fb.get("check") == "0":
+                        found = True
+                        ck.violation("real trace violates the property (bar_check): %s" % b[:160], {"case": c, "impl": a[:600], "model": b})
+                    else:
+                        corr_break("trace correspondence broken (spin barrier, unequal generations): %s" % b[:160],
+                                   {"case": c, "correspondence": "sstep vs real trace", "impl": a[:600], "model": b})
+                if ck.violations >= 3: break
+                continue
             if not why.startswith("no_thread_enabled"):
                 found = True
                 ck.violation("real code does not terminate within the step bound (%s): livelock" % why, {"case": c, "impl": a[:600]})
@@ -297,7 +410,7 @@ else:
                 for t, (pos, inside) in sorted(thr.items()):
                     if inside:
                         call = norm_call(blocks[t - 1][pos])
-                        blocked.append("%d:%d" % (t, pos))
+                        blocked.append("%d:%d" % (t, sum(1 for x in blocks[t - 1][:pos] if x != "V")))
                         if call[0] != "W" or call[1] + call[2] <= val:
                             stranded.append(t)
                 if stranded:
@@ -313,6 +426,7 @@ else:
                                  {"case": replay_case, "impl": a[:3000]})
                     if ck.violations >= 3: break
                     continue
+                if big: continue
                 if b.startswith("REJECT"):
                     # the real trace is not a trace of the model
                     if fb.get("check") == "0":
@@ -394,10 +508,6 @@ def count(pred):
 def calls_of(c):
     h, b = parse_case(c)
     return [x for blk in b for x in blk] if h[0] == "sem" else []
-def hopt(c, key):
-    for tok in parse_case(c)[0]:
-        if tok.startswith(key + "="): return tok.split("=", 1)[1]
-    return None
 def is_bar(c, k): return c.split()[0] == k
 api_surface = [
  {"api": "Semaphore(size_t initial_value)", "called": True, "cases": count(lambda c: c.startswith("sem") and hopt(c, "ctor") is None), "observed": "initial value enters every returned value (model init)"},
@@ -413,7 +523,7 @@ api_surface = [
  {"api": "bool try_acquire(size_t delta, size_t slack)", "called": True, "cases": count(lambda c: any(x.startswith("T,") for x in calls_of(c))), "observed": "returned bool compared with the model and sem_check"},
  {"api": "bool try_acquire(size_t delta) [slack = 0]", "called": True, "cases": count(lambda c: any(x.startswith("T1,") for x in calls_of(c))), "observed": "model call CTry delta 0"},
  {"api": "bool try_acquire() [delta = 1, slack = 0]", "called": True, "cases": count(lambda c: "T0" in calls_of(c)), "observed": "model call CTry 1 0"},
- {"api": "size_t Semaphore::value() const", "called": True, "cases": count(lambda c: c.startswith("sem")), "observed": "read at the end of every run and in every rest state (compared with the model's value); not read concurrently: the accessor is an unsynchronised read documented as debugging aid"},
+ {"api": "size_t Semaphore::value() const", "called": True, "cases": count(lambda c: c.startswith("sem")), "observed": "read at the end of every run and in every rest state (compared with the model's value); as a racing observer from worker threads (call V, %d cases): the value read must be the model's value adjusted by the owner's already executed update" % count(lambda c: "V" in calls_of(c))},
  {"api": "ThreadBarrierMutex(size_t thread_count)", "called": True, "cases": count(lambda c: is_bar(c, "bm")), "observed": "thread_count 1: %d cases" % stats.get("bm-n1", 0)},
  {"api": "ThreadBarrierMutex::wait(Lambda)", "called": True, "cases": count(lambda c: is_bar(c, "bm") and c.split()[1] in ("0", "2")), "observed": "action notes itself (scheduling point inside the lambda)"},
  {"api": "ThreadBarrierMutex::wait() [NoOperation]", "called": True, "cases": count(lambda c: is_bar(c, "bm") and c.split()[1] in ("0", "2") and hopt(c, "sil") is not None), "observed": "generations listed in sil=: model takes the silent last-arriver step (BLocked/ONotifyAll)"},
@@ -443,6 +553,7 @@ ck.finish({
     "std::mutex / std::condition_variable / std::atomic / this_thread::yield are the scheduler shim's (harness/sched/verif_sched.hpp): one event per operation, atomics sequentially consistent (acquire/release orders of ThreadBarrierSpin are outside the model)",
     "non-atomic reads/writes of value_, counts_[], step_ inside a critical section are attached to the thread's next shim event (no other thread can observe them while the mutex is held)",
     "size_t arithmetic modelled on nat: no overflow of delta+slack or of the token count; barriers are used by exactly thread_count participants, thread_count >= 1",
-    "safety theorems hold with spurious wake-ups; no_stranded_waiter / reusable are theorems of the semantics without spurious wake-ups",
+    "all theorems hold with and without spurious wake-ups; rest states with sleepers exist only without them, so the harness injects spurious wake-ups only into scenarios that always complete",
+    "delta + slack beyond size_t (overflow family, witnesses of the repaired defect /repo ca9b7a2 in corpus/C11/overflow_cases.txt): judged by the check's big-integer checker and the rest-state analysis; the nat model is tied to 64-bit words by C11_sem_threshold_test_correct",
     "extraction: ExtrOcamlBasic only; nat/list stay Coq inductives",
 ])
